@@ -26,10 +26,12 @@ const (
 	opLock
 	opWait
 	opQuiesce
+	opSend
+	opRecv
 )
 
 func (k opKind) String() string {
-	return [...]string{"none", "start", "yield", "lock", "wait", "quiesce"}[k]
+	return [...]string{"none", "start", "yield", "lock", "wait", "quiesce", "send", "recv"}[k]
 }
 
 type G struct {
@@ -46,6 +48,8 @@ type G struct {
 	vc      map[int]int // by goroutine ID
 	ops     int
 	spawned int
+	// channels first seen by this goroutine (for stable channel names)
+	chansMade int
 }
 
 // PointRec describes one decision point (a scheduling point with ≥ 1 enabled goroutine).
@@ -85,6 +89,9 @@ type Sched struct {
 	mutexN  int
 
 	noExplore bool
+
+	// channels (chan.go)
+	chans map[uintptr]*chanState
 
 	// conflict detection (race.go)
 	acc      map[unsafe.Pointer]*accRec
@@ -232,6 +239,19 @@ func (s *Sched) enabled(g *G) bool {
 		return !g.pendObj.(*Mutex).held
 	case opWait:
 		return g.pendObj.(*WaitGroup).n == 0
+	case opSend:
+		cs, _ := g.pendObj.(*chanState)
+		if cs == nil {
+			return false // nil channel
+		}
+		n, _ := s.pendingRecv(cs)
+		return cs.closed || len(cs.buf) < cs.cap+n
+	case opRecv:
+		cs, _ := g.pendObj.(*chanState)
+		if cs == nil {
+			return false
+		}
+		return len(cs.buf) > 0 || cs.closed
 	case opQuiesce:
 		for _, o := range s.gs {
 			if o != g && !o.done {
